@@ -222,6 +222,15 @@ static std::string fmt_pat(const MatT& A) { return fmt_sparse(A); }
 #endif
 
 static std::string pfx;
+static Solver* g_cur = nullptr;
+static std::string g_trace;
+static void on_fact_call(long k, bool fail)
+{
+    if (!g_cur) return;
+    std::ostringstream os;
+    os << " " << k << ":" << g_cur->m_result.info.iter << ":" << g_cur->m_result.info.factor_retires << ":" << (int) g_cur->m_enable_iterative_refinement << ":" << (fail ? 1 : 0);
+    g_trace += os.str();
+}
 static void out(const std::string& k, const std::string& v) { std::cout << pfx << k << " " << v << "\n"; }
 
 static void dump_data(Solver& S)
@@ -333,10 +342,13 @@ int main(int argc, char** argv)
             }
             if (op == "SOLVE")
             {
+                g_cur = S.get(); g_trace.clear(); vhook::fs().on_call = on_fact_call;
                 Status st = S->solve();
+                g_cur = nullptr;
                 out("op", "solve");
                 dump_result(*S, st);
                 out("fact_calls", std::to_string(vhook::fact_calls()));
+                out("trace", g_trace);
 #if SCALAR == 0
                 out("nonfinite", std::to_string((int) xr::g().nonfinite_arith));
 #endif
